@@ -188,6 +188,14 @@ func (enc Encryptor) EncryptNew(pt *Plaintext) (ct *Ciphertext, err error) {
 // encryption of zero is sampled in QP before being rescaled by P; otherwise, it is directly sampled in Q.
 // The zero encryption is generated according to the given [Ciphertext] [MetaData].
 func (enc Encryptor) EncryptZero(ct interface{}) (err error) {
+
+	// An encryption of zero has degree 1: clears the higher degree terms of a receiver of larger degree (previous use)
+	if cti, isCt := ct.(*Ciphertext); isCt {
+		for i := 2; i < len(cti.Value); i++ {
+			cti.Value[i].Zero()
+		}
+	}
+
 	switch key := enc.encKey.(type) {
 	case *SecretKey:
 		return enc.encryptZeroSk(key, ct)
